@@ -10,6 +10,8 @@ import AgpTpf.Model.Lookup
 import AgpTpf.Model.Text
 import AgpTpf.Model.Fasta
 import AgpTpf.Model.Remap
+import AgpTpf.Model.Cache
+import AgpTpf.Model.Outputs
 open Lean AgpTpf
 
 abbrev D := Except String
@@ -250,6 +252,56 @@ def hMisc (j : Json) : D Json := do
     ("gap_to_tpf", jstr (tpfGapTypeToText n)), ("gap_from_tpf", jstr (tpfGapTypeOfText n))]) names)
 
 
+def encFileV (f : Cache.FileV) : Json := Json.arr #[jnat f.src, jnat f.written, jnat f.total, jnat f.mtime]
+
+def encPC : Cache.PC → Json
+  | .start => "start" | .statted _ => "statted" | .faiOk _ => "faiOk" | .bothOk => "bothOk"
+  | .loadedFai _ => "loadedFai" | .index0 => "index0" | .readFasta _ => "readFasta"
+  | .writingFai _ _ _ => "writingFai" | .faiClosed _ _ => "faiClosed" | .faiDone _ => "faiDone"
+  | .writingAgp _ _ _ => "writingAgp" | .agpClosed _ _ => "agpClosed"
+  | .done (.loaded a b) c => Json.mkObj [("done", "loaded"), ("fai", encFileV a), ("agp", encFileV b), ("content", jnat c)]
+  | .done (.indexed c') c => Json.mkObj [("done", "indexed"), ("of", jnat c'), ("content", jnat c)]
+  | .done .failed c => Json.mkObj [("done", "failed"), ("content", jnat c)]
+  | .crashed => "crashed"
+
+def decCacheOp (j : Json) : D Cache.Op := do
+  let k ← getS j "op"
+  match String.ofList k with
+  | "tick" => pure .tick
+  | "rewrite" => pure .rewriteFasta
+  | "delfai" => pure .deleteFai
+  | "delagp" => pure .deleteAgp
+  | "spawn" => pure .spawn
+  | "step" => pure (.step (← getI j "p").toNat)
+  | "crash" => pure (.crash (← getI j "p").toNat)
+  | o => throw s!"bad cache op {o}"
+
+def hCache (j : Json) : D Json := do
+  let atomic ← getB j "atomic"
+  let ft ← getI j "fai_total"
+  let at_ ← getI j "agp_total"
+  let ops ← (← getA j "ops").mapM decCacheOp
+  let rec go (s : Cache.State) (ops : List Cache.Op) (acc : List Json) : List Json :=
+    match ops with
+    | [] => acc.reverse
+    | op :: rest =>
+      let label := match op with
+        | .step p => (match s.procs[p]? with | some pc => Cache.opLabel s pc | none => "none")
+        | _ => "env"
+      let s' := Cache.applyOp s op
+      let snap := Json.mkObj [("label", Json.str label), ("clock", jnat s'.clock), ("fasta", Json.arr #[jnat s'.fastaContent, jnat s'.fastaMtime]),
+        ("fai", jopt encFileV s'.fai), ("agp", jopt encFileV s'.agp), ("procs", jarr encPC s'.procs), ("safe", Json.bool (Cache.safe s'))]
+      go s' rest (snap :: acc)
+  pure (Json.arr (go (Cache.init atomic ft.toNat at_.toNat) ops []).toArray)
+
+def hOutputs (j : Json) : D Json := do
+  let clobber ← getB j "clobber"
+  let existing ← getSL j "existing"
+  let outs ← getSL j "outputs"
+  let r := Outputs.runOutputs clobber (existing.map (fun p => (p, Outputs.Content.old))) outs
+  pure (Json.mkObj [("exit", jnat r.exit), ("error_path", jopt jstr r.errorPath),
+    ("fs", jarr (fun (p : Str × Outputs.Content) => Json.arr #[jstr p.1, Json.str (match p.2 with | .old => "old" | .new => "new")]) r.fs)])
+
 def dispatch (j : Json) : D Json := do
   let kind ← getS j "kind"
   match String.ofList kind with
@@ -271,6 +323,8 @@ def dispatch (j : Json) : D Json := do
   | "isspace" => hIsSpace j
   | "pyint" => hPyInt j
   | "misc" => hMisc j
+  | "cache" => hCache j
+  | "outputs" => hOutputs j
   | k => throw s!"unknown kind {k}"
 
 partial def loop (h : IO.FS.Stream) (out : IO.FS.Stream) : IO Unit := do
